@@ -48,11 +48,6 @@ def ptOf (t : Table) (rad : List (Int × Rat)) (i : Int) : Pt :=
   | some n => ⟨n.x, n.y, n.z, radiusOf rad i⟩
   | none => default
 
-/-- Edge lengths along a segment (exact integer Euclidean lengths). -/
-def segLens (t : Table) : List Int → List Rat
-  | a :: b :: rest => ((coordLen t a b : Nat) : Rat) :: segLens t (b :: rest)
-  | _ => []
-
 def exactEdges (t : Table) : Bool :=
   t.all fun n => isRootNode n || (match find? t n.parent with
     | some p => isqrt (sqDist n p) * isqrt (sqDist n p) == sqDist n p
@@ -83,7 +78,7 @@ def run (cmd rest : String) : Option String :=
       let pl := planOf t (cntOf len res)
       let entries := (segs.zip pl).map fun (s, o) =>
         let total : Rat := ((pathLen len s : Nat) : Rat)
-        let ks := knots 0 (s.map (ptOf t rad)) (segLens t s)
+        let ks := segKnots (ptOf t rad) len s
         let collapsed := (cntOf len res s).isNone
         let pts := (List.range (o.k + 1)).map fun j => polyAt ks (samplePos total o.k j)
         (o.first, s!"{o.first},{o.last},{o.k},{o.base},{b2s collapsed},{showRat total}@" ++ " ".intercalate (pts.map showPt))
